@@ -166,6 +166,11 @@ def check_wire(spec, S, T, data, stats, one_byte_wire=True):
     hdr = {}
     for e in top:
         hdr.setdefault(e[0], e[1])
+    for htag in ("49", "56", "34", "52"):
+        if sum(1 for e in top if e[0] == htag) > 1:
+            fails.append(("compid_wrong" if htag in ("49", "56") else "seqnum_wrong",
+                          {"header_tag_repeated": htag, "observed": [e for e in top if e[0] == htag]}))
+            break
     if hdr.get("49") != S or hdr.get("56") != T:
         fails.append(("compid_wrong", {"expected": [S, T], "observed": [repr(hdr.get("49")), repr(hdr.get("56"))]}))
     n, _ = expected_number(spec)
